@@ -3,6 +3,7 @@ Lock-step simulation, row by row: node-producing rows (their node is created, th
 added, their group is appended), `hard_exit` / `loose_exit` rows and `go_to` rows (edges only).
 -/
 import Rpft.Lemmas.CoreSim
+import Rpft.Lemmas.CoreFixed
 set_option linter.unusedSimpArgs false
 set_option linter.unusedVariables false
 namespace Rpft.CoreSheet
@@ -18,11 +19,26 @@ structure RowFacts (c : CRow) : Prop where
   t11 : c.row.type ≠ "loose_exit".toList
   t12 : c.row.type ≠ "insert_as_block".toList
   kind : kindOf c.row.type = .action ∨ kindOf c.row.type = .wait ∨ kindOf c.row.type = .splitValue ∨
-    kindOf c.row.type = .splitGroup
+    kindOf c.row.type = .splitGroup ∨ kindOf c.row.type = .enterFlow ∨ kindOf c.row.type = .webhook ∨
+    kindOf c.row.type = .airtime ∨ kindOf c.row.type = .splitRandom
+
+theorem fixed_type {t : Str} (h : fixedTypes.contains t = true) :
+    t = "start_new_flow".toList ∨ t = "call_webhook".toList ∨ t = "transfer_airtime".toList := by
+  rw [List.contains_iff_mem] at h
+  simp only [fixedTypes, List.map_cons, List.map_nil, List.mem_cons, List.not_mem_nil, or_false] at h
+  exact h
+
+theorem kindOf_fixed {t : Str}
+    (h : t = "start_new_flow".toList ∨ t = "call_webhook".toList ∨ t = "transfer_airtime".toList) :
+    isFixedKind (kindOf t) := by
+  rcases h with h | h | h <;> subst h
+  · exact .inl kindOf_enter
+  · exact .inr (.inl kindOf_webhook)
+  · exact .inr (.inr kindOf_airtime)
 
 theorem rowFacts (c : CRow) (hf : nodeRowOk c = true) : RowFacts c := by
   simp only [nodeRowOk, Bool.or_eq_true] at hf
-  rcases hf with hf | hf
+  rcases hf with (hf | hf) | hf
   · simp only [plainActionRow, Bool.and_eq_true, Bool.not_eq_true', List.isEmpty_iff, decide_eq_true_eq] at hf
     obtain ⟨⟨⟨hsp, hu⟩, hnm⟩, _⟩ := hf
     obtain ⟨_, _, _, _, _, _, _, h8, h9, h10, h11, h12⟩ := not_special hsp
@@ -30,8 +46,29 @@ theorem rowFacts (c : CRow) (hf : nodeRowOk c = true) : RowFacts c := by
   · simp only [switchRow, Bool.and_eq_true, List.isEmpty_iff] at hf
     obtain ⟨⟨⟨hsw, hu⟩, hnm⟩, _⟩ := hf
     have ht := switch_type hsw
-    refine ⟨hu, hnm, ?_, ?_, ?_, ?_, ?_, .inr (kindOf_switch ht)⟩ <;>
-      (rcases ht with h | h | h <;> rw [h] <;> decide)
+    refine ⟨hu, hnm, ?_, ?_, ?_, ?_, ?_, ?_⟩
+    · rcases ht with h | h | h <;> rw [h] <;> decide
+    · rcases ht with h | h | h <;> rw [h] <;> decide
+    · rcases ht with h | h | h <;> rw [h] <;> decide
+    · rcases ht with h | h | h <;> rw [h] <;> decide
+    · rcases ht with h | h | h <;> rw [h] <;> decide
+    · rcases kindOf_switch ht with h | h | h
+      · exact .inr (.inl h)
+      · exact .inr (.inr (.inl h))
+      · exact .inr (.inr (.inr (.inl h)))
+  · simp only [fixedRow, Bool.and_eq_true, List.isEmpty_iff] at hf
+    obtain ⟨⟨⟨hsw, hu⟩, hnm⟩, _⟩ := hf
+    have ht := fixed_type hsw
+    refine ⟨hu, hnm, ?_, ?_, ?_, ?_, ?_, ?_⟩
+    · rcases ht with h | h | h <;> rw [h] <;> decide
+    · rcases ht with h | h | h <;> rw [h] <;> decide
+    · rcases ht with h | h | h <;> rw [h] <;> decide
+    · rcases ht with h | h | h <;> rw [h] <;> decide
+    · rcases ht with h | h | h <;> rw [h] <;> decide
+    · rcases kindOf_fixed ht with h | h | h
+      · exact .inr (.inr (.inr (.inr (.inl h))))
+      · exact .inr (.inr (.inr (.inr (.inr (.inl h)))))
+      · exact .inr (.inr (.inr (.inr (.inr (.inr (.inl h))))))
 
 /-- a row of the fragment goes straight to `newRow` -/
 theorem wp_parseRow_new (c : CRow) (hf : RowFacts c) (s : St) (Q : PUnit → St → Prop)
@@ -51,25 +88,26 @@ theorem wp_parseRow_new (c : CRow) (hf : RowFacts c) (s : St) (Q : PUnit → St 
 
 /-- pass 1 on a node-producing row -/
 theorem pass1Row_node (st : P1) (k : Nat) (r : RRow)
-    (hk : r.kind = .action ∨ r.kind = .wait ∨ r.kind = .splitValue ∨ r.kind = .splitGroup) :
+    (hk : r.kind = .action ∨ r.kind = .wait ∨ r.kind = .splitValue ∨ r.kind = .splitGroup ∨ r.kind = .enterFlow ∨
+      r.kind = .webhook ∨ r.kind = .airtime ∨ r.kind = .splitRandom) :
     pass1Row st k r =
       match addEdges st k (((r.edges.zipIdx.filter fun (p : REdge × Nat) => p.2 = 0 || !isTrivial p.1).map (·.1)).map
           (fun e => (e, Target.row k))) with
       | .error err => .error err
       | .ok st1 => .ok { st1 with prev := some k, ids := if r.rowId.isEmpty then st1.ids else (r.rowId, k) :: st1.ids } := by
   unfold pass1Row
-  rcases hk with h | h | h | h <;> simp only [h, bind, Except.bind, pure, Except.pure] <;>
+  rcases hk with h | h | h | h | h | h | h | h <;> simp only [h, bind, Except.bind, pure, Except.pure] <;>
     (cases addEdges st k _ <;> rfl)
 
 
 /-- the node the compiler creates for a row of the fragment is the compiled form of the row with no
 out-edge yet -/
 theorem rowNode_sim (c : CRow) (hf : nodeRowOk c = true) (edges : List Compile.Edge) (act : Option (Uid × Str))
-    (hact : act.map (·.2) = c.row.action) (s : St) :
+    (hact : act.map (·.2) = c.row.action) (s : St) (hna : s.noArgs = RefFlow.noArgsTests) :
     wp (rowNode { c.row with edges := edges } act) s (fun n s' =>
       (∃ k, Bump s s' k) ∧ ∀ M ns, NodeSim M ns n c []) := by
   simp only [nodeRowOk, Bool.or_eq_true] at hf
-  rcases hf with hf | hf
+  rcases hf with (hf | hf) | hf
   · simp only [plainActionRow, Bool.and_eq_true, Bool.not_eq_true', List.isEmpty_iff, decide_eq_true_eq] at hf
     obtain ⟨⟨⟨hsp, _⟩, _⟩, _⟩ := hf
     refine wp_mono (rowNode_plain _ act s hsp) ?_
@@ -90,6 +128,20 @@ theorem rowNode_sim (c : CRow) (hf : nodeRowOk c = true) (edges : List Compile.E
     · rw [hfr.cats]; exact List.Forall₂.nil
     · rw [hfr.dflt]; rfl
     · intro nr hnr; rw [hfr.nr nr hnr]; rfl
+  · simp only [fixedRow, Bool.and_eq_true, List.isEmpty_iff] at hf
+    obtain ⟨⟨⟨hsw, _⟩, _⟩, _⟩ := hf
+    have ht := fixed_type hsw
+    have key : wp (rowNode { c.row with edges := edges } act) s (fun n s' =>
+        (∃ k, Bump s s' k) ∧ ∃ sw sc, FreshFix { c.row with edges := edges } n sw sc) := by
+      rcases ht with h | h
+      · exact rowNode_enter _ act s hna h
+      · exact rowNode_hook _ act s hna h
+    refine wp_mono key ?_
+    intro n s' ⟨hb, sw, sc, hfr⟩
+    refine ⟨hb, fun M ns => .fix sw sc (kindOf_fixed ht) ⟨hfr.kind, hfr.acts, hfr.router, hfr.operand, hfr.rname,
+      hfr.wait, hfr.noResp, hfr.cats, hfr.sname, hfr.uidne, hfr.cases, ?_, ?_⟩⟩
+    · rw [hfr.succ]; rfl
+    · rw [hfr.dflt]; rfl
 
 /-! ### changing the ghost map where no target lives -/
 
@@ -143,10 +195,14 @@ theorem NodeSim.congrM {M M' : Maps} {ns : Array NodeM} {n : NodeM} {c : CRow} {
     · exact hp.dflt.congrM (hlast _ (hfil _ _ (fun e he => he)))
     · intro nr hnr
       exact (hp.nr nr hnr).congrM (hlast _ (hfil _ _ (hfil _ _ (fun e he => he))))
+  | fix r sc hk hp =>
+    exact .fix r sc hk ⟨hp.kind, hp.acts, hp.router, hp.operand, hp.rname, hp.wait, hp.noResp, hp.cats, hp.sname,
+      hp.uidne, hp.cases, hp.succ.congrM (hlast _ (hfil _ _ (fun e he => he))),
+      hp.dflt.congrM (hlast _ (hfil _ _ (fun e he => he)))⟩
 
 theorem isNodeRow_of_ok (c : CRow) (hf : nodeRowOk c = true) : isNodeRow c = true := by
   unfold isNodeRow
-  rcases (rowFacts c hf).kind with h | h | h | h <;> rw [h] <;> rfl
+  rcases (rowFacts c hf).kind with h | h | h | h | h | h | h | h <;> rw [h] <;> rfl
 
 theorem outOf_nil_of_src (st : P1) (k : Nat) (h : ∀ e ∈ st.out, e.src < k) : outOf st k = [] := by
   unfold outOf
@@ -229,7 +285,7 @@ theorem node_row_sim (rows : List CRow) (outF : List OutEdge) (g : Good rows out
     wp_simp [wp_addNode, wp_addGrp]
     refine wp_mono (rowAction_exact _ s) ?_
     intro act s1 ⟨⟨k1, hb1⟩, hact1⟩; subst hb1
-    refine wp_mono (rowNode_sim c hf _ act hact1 _) ?_
+    refine wp_mono (rowNode_sim c hf _ act hact1 _ h.args) ?_
     intro n s2 ⟨⟨k2, hb2⟩, hnsim⟩; subst hb2
     dsimp only
     -- the ghost map learns where the node of row `k` lives
